@@ -161,7 +161,7 @@ pub fn run(cfg: &RunCfg, stats: &mut Stats, exhaustive: &mut bool, extra: &mut V
             Outcome::Pass => run_call_sites(cfg, stats),
             other => other,
         },
-        "C19" => match macro_paths(&cfg.id, stats) {
+        "C19" => match macro_paths(&cfg.id, stats).and_then(|_| if cfg.thorough { endurance(stats) } else { Ok(()) }) {
             Ok(()) => run_call_sites(cfg, stats),
             Err(f) => Outcome::Violation(Violation { replay: json!({"property": cfg.id, "kind": "macro_paths", "clause": f.clause, "detail": f.detail}), fail: f }),
         },
@@ -229,7 +229,7 @@ pub fn replay(id: &str, v: &Value) -> Result<Option<Fail>, String> {
                 _ => Err("bad start".into()),
             }
         }
-        (_, "macro_paths") => Ok(macro_paths(id, &mut st).err()),
+        (_, "macro_paths") => Ok(macro_paths(id, &mut st).and_then(|_| if id == "C19" { endurance(&mut st) } else { Ok(()) }).err()),
         (_, "call_site") => {
             let start = crate::drive::start_from_json(&v["start"])?;
             let actions: Vec<arimaa_engine_step::Action> = v["actions"].as_array().ok_or("actions")?.iter().filter_map(|x| x.as_str()).map(crate::drive::parse_action_text).collect::<Result<_, _>>()?;
@@ -328,6 +328,36 @@ pub fn c04_position(p: &gen::PosSpec, st: &mut Stats) -> Check {
 }
 
 fn run_c04(cfg: &RunCfg, stats: &mut Stats) -> Outcome {
+    // constructed "push-only" positions first (small space: enumerated over the selector bytes that matter)
+    {
+        let mut n = 0u64;
+        for a in 0..4u8 {
+            for x in 0..5u8 {
+                for s2 in 0..8u8 {
+                    for s3 in 0..4u8 {
+                        for f in 0..4u8 {
+                            for misc in 0..6u8 {
+                                for gold in [true, false] {
+                                    let sel = [a, x, s2, s3, f, misc, misc.wrapping_mul(5), misc];
+                                    if let Some(p) = gen::push_only_pos(&sel, gold) {
+                                        n += 1;
+                                        match c04_position(&p, stats) {
+                                            Err(f) if f.clause.starts_with("harness:") => {}
+                                            Err(f) => {
+                                                return Outcome::Violation(Violation { replay: json!({"property": "C04", "kind": "position", "clause": f.clause, "detail": f.detail, "start": crate::drive::start_json(&gen::Start::Pos(p)), "seed": cfg.seed, "shard": 0}), fail: f });
+                                            }
+                                            Ok(()) => {}
+                                        }
+                                    }
+                                }
+                            }
+                        }
+                    }
+                }
+            }
+        }
+        stats.add("push_only_positions", n);
+    }
     let cases = if cfg.thorough { 400_000 } else { 40_000 };
     let strat = || {
         (gen::raw_pos(), 0u8..32, 0u8..8, 0u8..8, prop::collection::vec((any::<u8>(), any::<u8>(), any::<u8>()), 1..5))
@@ -807,6 +837,44 @@ pub fn macro_paths(id: &str, st: &mut Stats) -> Check {
     }
     st.bump("states_reached_through_the_macros");
     Ok(())
+}
+
+// =====================================================================================
+// C19 endurance (thorough tier and replay only): one thread asks a wide-open position for its action
+// lists until it has been handed more than 2^32 actions in total - what a search worker does within the
+// hour. Anything the engine counts in 32 bits along the way wraps (or, with overflow checks, panics).
+// =====================================================================================
+pub fn endurance(st: &mut Stats) -> Check {
+    let mut best: Option<(usize, gen::PosSpec)> = None;
+    for k in 0..24u8 {
+        let p = gen::open_pos(&[k, k.wrapping_mul(37), 11, 0, 7, 3, 3, k], &[(9, 0, 0), (50, 0, 0), (20, 0, 0), (33, 0, 0), (44, 0, 0), (27, 0, 0), (14, 0, 0), (59, 0, 0)], k % 2 == 0);
+        let n = Model::from_position(p.board, p.gold_to_move, 2).offered_norep().len();
+        if best.as_ref().map(|b| n > b.0).unwrap_or(true) {
+            best = Some((n, p));
+        }
+    }
+    let (n, p) = best.unwrap();
+    let eng = engine_from_position(&p.board, p.gold_to_move, 2).map_err(|e| Fail::new("harness:start", e))?;
+    let target: u64 = (1u64 << 32) + (1u64 << 22);
+    let r = guard(|| {
+        let mut total = 0u64;
+        let mut calls = 0u64;
+        while total < target {
+            total += eng.valid_actions().len() as u64;
+            total += eng.valid_actions_no_rep().len() as u64;
+            calls += 2;
+        }
+        (total, calls)
+    });
+    match r {
+        Ok((total, calls)) => {
+            st.add("endurance_actions_handed_to_one_thread", total);
+            st.add("endurance_calls", calls);
+            st.eval();
+            Ok(())
+        }
+        Err(pn) => Err(Fail::new("C19:valid_actions", format!("after billions of offered actions on one thread (a position offering {} actions asked over and over, aiming at 2^32 actions in total) a list query panicked: {} at [{}]", n, pn, board_text(&p.board)))),
+    }
 }
 
 // =====================================================================================
